@@ -195,7 +195,7 @@ PROPS["C02"] = dict(
     exhaustive_scope="3 fixed one-file scenarios x every offset of both directions x {bit flip, delete one byte}",
     tests=[
         dict(name="TestVF_C02", env=dict(VERIF_CASE_LIMIT=300),
-             quick=dict(checks=480, shards=16, timeout=900), thorough=dict(checks=12000, shards=16, timeout=10000)),
+             quick=dict(checks=800, shards=16, timeout=900), thorough=dict(checks=12000, shards=16, timeout=10000)),
         dict(name="TestVF_C02Exhaustive", rapid=False, env=dict(VERIF_CASE_LIMIT=300),
              quick=dict(shards=16, timeout=900, env=dict(VERIF_C02_STRIDE=37)), thorough=dict(shards=16, timeout=14000, env=dict(VERIF_C02_STRIDE=1))),
     ],
